@@ -257,6 +257,10 @@ def job_interp(job, cls, nx, nt, rerun=None):
         job.prove(f"{tag}/reach[path{k}]", pr.pc, expect="sat", elim=True)
 
 
+# concrete replays run on the real code when the changed code uses something the engine does not model (harness.finish)
+FALLBACK = [(replay_shift, {}), (replay_shift, {"cls": "IdealReservoir"}), (replay_schedule, {}), (replay_interp, {}), (replay_interp, {"rerun": ["recovery_factor_interpolator"]}), (replay_errors, {}), (replay_errors, {"length": 1}), (replay_errors, {"which": "rf"}), (replay_errors, {"which": "interp"})]
+
+
 def jobs(tier):
     out = []
     # (6, 5) was tried in the thorough tier: the identities are unsat there too but the reachability witness of the
